@@ -16,7 +16,6 @@ import (
 
 	"github.com/apernet/hysteria/core/v2/client"
 	coreErrs "github.com/apernet/hysteria/core/v2/errors"
-	"github.com/apernet/hysteria/core/v2/internal/protocol"
 	"verif.local/engine/explore"
 	"verif.local/engine/vquic"
 	"verif.local/engine/vsched"
@@ -36,6 +35,9 @@ type c06Cfg struct {
 	Whole     string // "" | "c2t" | "t2c" | "both": directions in which complete delivery is required
 	Window    int    // stream window (0 = default)
 	Chunks    bool   // short reads as environment choices
+	// ReadLate: the application's first Read happens only after target bytes were relayed onto
+	// the stream (a target that speaks first, an application that is slow to read)
+	ReadLate bool
 }
 
 const c06Addr = "target.example:80"
@@ -64,13 +66,58 @@ func c06Run(e *vsched.Exec, c c06Cfg) {
 	var appGot, tgtGot bytes.Buffer
 	var appWritten, tgtWritten int
 	var appReadErr, tgtReadErr, tcpErr, appWriteErr error
+	var wg vsync.WaitGroup
+	tgtReadDone := false
 	if c.Window > 0 {
 		nt.Conns[0].StreamWindow = c.Window
 		nt.Conns[0].Peer().StreamWindow = c.Window
 	}
+	if c.DialErr == "" {
+		wg.Add(2)
+		vsched.GoNamed("target-writer", func() {
+			defer wg.Done()
+			e.Point("env", func() bool { return r.Targets[c06Addr] != nil || nt.Conns[0].IsClosed() }, "target waits for dial")
+			t := r.Targets[c06Addr]
+			if t == nil {
+				return
+			}
+			for _, ch := range c.TgtSend {
+				n, err := t.Write([]byte(ch))
+				tgtWritten += n
+				if err != nil {
+					return
+				}
+			}
+			switch c.TgtClose {
+			case "after-writes":
+				_ = t.Close()
+			case "after-reading-all":
+				e.Point("env", func() bool { return tgtGot.Len() >= len(appSent) || tgtReadDone }, "target waits for app data")
+				_ = t.Close()
+			}
+		})
+		vsched.GoNamed("target-reader", func() {
+			defer wg.Done()
+			e.Point("env", func() bool { return r.Targets[c06Addr] != nil || nt.Conns[0].IsClosed() }, "target waits for dial")
+			t := r.Targets[c06Addr]
+			if t == nil {
+				tgtReadDone = true
+				return
+			}
+			buf := make([]byte, 16)
+			for {
+				n, err := t.Read(buf)
+				tgtGot.Write(buf[:n])
+				if err != nil {
+					tgtReadErr = err
+					tgtReadDone = true
+					return
+				}
+			}
+		})
+	}
 	conn, err := cl.TCP(c06Addr)
 	tcpErr = err
-	var wg vsync.WaitGroup
 	if err == nil {
 		for _, s := range nt.Conns[0].Streams() {
 			s.EOFWithData, s.Other().EOFWithData = true, true
@@ -100,6 +147,17 @@ func c06Run(e *vsched.Exec, c c06Cfg) {
 		})
 		vsched.GoNamed("app-reader", func() {
 			defer wg.Done()
+			if c.ReadLate {
+				// a slow application: its first Read comes after target bytes reached the stream
+				e.Point("env", func() bool {
+					for _, s := range nt.Conns[0].Peer().Streams() {
+						if n, ok := c06ResponseLen(s.WrittenBytes()); ok && len(s.WrittenBytes()) > n {
+							return true
+						}
+					}
+					return nt.Conns[0].IsClosed() || tgtReadDone
+				}, "app reads late")
+			}
 			buf := make([]byte, 16)
 			for {
 				n, err := conn.Read(buf)
@@ -111,51 +169,6 @@ func c06Run(e *vsched.Exec, c c06Cfg) {
 				}
 			}
 		})
-		if c.DialErr == "" {
-			wg.Add(2)
-			tgtReadDone := false
-			vsched.GoNamed("target-writer", func() {
-				defer wg.Done()
-				e.Point("env", func() bool { return r.Targets[c06Addr] != nil || nt.Conns[0].IsClosed() }, "target waits for dial")
-				t := r.Targets[c06Addr]
-				if t == nil {
-					return
-				}
-				for _, ch := range c.TgtSend {
-					n, err := t.Write([]byte(ch))
-					tgtWritten += n
-					if err != nil {
-						return
-					}
-				}
-				switch c.TgtClose {
-				case "after-writes":
-					_ = t.Close()
-				case "after-reading-all":
-					e.Point("env", func() bool { return tgtGot.Len() >= len(appSent) || tgtReadDone }, "target waits for app data")
-					_ = t.Close()
-				}
-			})
-			vsched.GoNamed("target-reader", func() {
-				defer wg.Done()
-				e.Point("env", func() bool { return r.Targets[c06Addr] != nil || nt.Conns[0].IsClosed() }, "target waits for dial")
-				t := r.Targets[c06Addr]
-				if t == nil {
-					tgtReadDone = true
-					return
-				}
-				buf := make([]byte, 16)
-				for {
-					n, err := t.Read(buf)
-					tgtGot.Write(buf[:n])
-					if err != nil {
-						tgtReadErr = err
-						tgtReadDone = true
-						return
-					}
-				}
-			})
-		}
 		if c.AppClose == "never" && c.TgtClose == "never" {
 			// nobody closes: let everything settle, then tear down from the application side
 			e.WaitIdle()
@@ -227,10 +240,9 @@ func c06Run(e *vsched.Exec, c c06Cfg) {
 			fwdTx = uint64(len(re.Written))
 		}
 		for _, s := range sconn.Streams() {
-			all := s.WrittenBytes()
-			rd := bytes.NewReader(all)
-			if _, _, err := protocol.ReadTCPResponse(rd); err == nil {
-				fwdRx += uint64(rd.Len())
+			// the harness's own parser of the response frame (not the code under test)
+			if n, ok := c06ResponseLen(s.WrittenBytes()); ok {
+				fwdRx += uint64(len(s.WrittenBytes()) - n)
 			}
 		}
 		if fwdTx > okTx || okTx-fwdTx > maxTx {
@@ -264,6 +276,40 @@ func c06Run(e *vsched.Exec, c c06Cfg) {
 	r.shutdown(true)
 }
 
+// c06ResponseLen returns the length of the TCPResponse frame at the start of b (PROTOCOL.md:
+// status byte, varint message length, message, varint padding length, padding).
+func c06ResponseLen(b []byte) (int, bool) {
+	vi := func(off int) (uint64, int, bool) {
+		if off >= len(b) {
+			return 0, 0, false
+		}
+		n := 1 << (b[off] >> 6)
+		if off+n > len(b) {
+			return 0, 0, false
+		}
+		v := uint64(b[off] & 0x3f)
+		for i := 1; i < n; i++ {
+			v = v<<8 | uint64(b[off+i])
+		}
+		return v, n, true
+	}
+	off := 1
+	l, n, ok := vi(off)
+	if !ok {
+		return 0, false
+	}
+	off += n + int(l)
+	p, n, ok := vi(off)
+	if !ok {
+		return 0, false
+	}
+	off += n + int(p)
+	if off > len(b) {
+		return 0, false
+	}
+	return off, true
+}
+
 type c06Factory struct{ pcs []*c06PC }
 
 type c06PC struct {
@@ -292,6 +338,10 @@ func c06Scenarios(thorough bool) []*explore.Scenario {
 				c06Cfg{Name: "both-tgtcloses" + sfx, AppSend: []string{"abc"}, TgtSend: []string{"x", "yz0"}, TgtClose: "after-reading-all", AppClose: "never", FastOpen: fo, Logger: lg, Whole: "both"},
 				c06Cfg{Name: "race-close" + sfx, AppSend: []string{"a", "bcd"}, TgtSend: []string{"x", "yz0"}, AppClose: "after-writes", TgtClose: "after-writes", FastOpen: fo, Logger: lg},
 				c06Cfg{Name: "dialerr" + sfx, AppSend: []string{"a"}, AppClose: "never", TgtClose: "never", FastOpen: fo, Logger: lg, DialErr: "connection refused by policy"},
+			)
+			cfgs = append(cfgs,
+				c06Cfg{Name: "t2c-readlate" + sfx, TgtSend: []string{"x", "yz0"}, TgtClose: "after-writes", AppClose: "never", FastOpen: fo, Logger: lg, Whole: "t2c", ReadLate: true},
+				c06Cfg{Name: "both-readlate" + sfx, AppSend: []string{"abc"}, TgtSend: []string{"xyz"}, AppClose: "after-reading-all", TgtClose: "never", FastOpen: fo, Logger: lg, Whole: "both", ReadLate: true},
 			)
 			if lg {
 				for k := 1; k <= 3; k++ {
